@@ -45,7 +45,7 @@ def _source(eng, name, n):
 # ---------------------------------------------------------------------------
 # split / join on one interval with arbitrary (possibly overlapping) blocks
 # ---------------------------------------------------------------------------
-def h_split_join(eng, nblocks, kinds, nexpr, custom_tables, uninit):
+def h_split_join(eng, nblocks, kinds, nexpr, custom_tables, uninit, ordered=False):
     from gtirb_rewriting import _auxdata_offsetmap
     from gtirb_rewriting._adt import OffsetMapping
     from gtirb_rewriting.intervalutils import join_byte_intervals, split_byte_interval
@@ -70,6 +70,8 @@ def h_split_join(eng, nblocks, kinds, nexpr, custom_tables, uninit):
         cls = gtirb.CodeBlock if kinds[i] == "c" else gtirb.DataBlock
         b = cls(offset=o, size=s)
         b.byte_interval = bi
+        if ordered and blocks:
+            eng.assume(blocks[-1][1] <= o)  # creation order = address order (stated restriction of the 4-block shapes)
         blocks.append((b, o, s))
     # a zero-sized block at exactly the offset of another block: whether it joins that block's group depends on the
     # iteration order of the interval's block set (ties of sorted(key=offset)); excluded from the claim
@@ -462,7 +464,7 @@ def make_check(tier):
     chk.classify_exception = classify
     quick = tier == "quick"
     kind_sets = {1: ["c", "d"], 2: ["cc", "cd", "dc"], 3: ["ccc", "cdc", "dcd"], 4: ["cccc", "cdcd"]}
-    for n in ((0, 1, 2) if quick else (0, 1, 2, 3, 4)):
+    for n in ((0, 1, 2) if quick else (0, 1, 2, 3)):
         for kinds in (kind_sets.get(n) or [""]):
             if quick and n == 3 and kinds != "ccc":
                 continue
@@ -473,6 +475,11 @@ def make_check(tier):
                     chk.add("splitjoin/n%d/%s/%s/%s" % (n, kinds or "-", "custom" if custom else "aux", "uninit" if uninit else "full"),
                             h_split_join, params=dict(nblocks=n, kinds=kinds, nexpr=(1 if n >= 3 else 2), custom_tables=custom,
                                                       uninit=uninit), timeout=3000)
+    if not quick:
+        # four blocks: blocks created in address order, no symbolic expressions / aux entries (stated restriction)
+        for kinds in kind_sets[4]:
+            chk.add("splitjoin/n4/%s/aux/full/ordered/noexpr" % kinds, h_split_join,
+                    params=dict(nblocks=4, kinds=kinds, nexpr=0, custom_tables=False, uninit=False, ordered=True), timeout=3000)
     if quick:
         chk.add("splitjoin/n3/ccd/aux/full/noexpr", h_split_join,
                 params=dict(nblocks=3, kinds="ccd", nexpr=0, custom_tables=False, uninit=False), timeout=3000)
@@ -513,7 +520,9 @@ def make_check(tier):
         "split/join": "one interval with 0-%d blocks (code/data mixes) at arbitrary symbolic offsets and sizes (all order, "
                       "overlap, containment, zero-size and gap relations are path splits decided by z3), 1-2 symbolic "
                       "expressions and aux entries at arbitrary offsets, default and custom tables, with and without an "
-                      "uninitialised tail; no numeric bounds" % (3 if quick else 4),
+                      "uninitialised tail; no numeric bounds%s" % (3 if quick else 4, "" if quick else
+                                                                    "; the 4-block shapes create blocks in address order and "
+                                                                    "carry no expressions"),
         "join with alignment": "2 intervals, alignment 2^0..2^%d, nop size 1 and 4, first block code or data, address residue "
                                "enumerated modulo the alignment, sizes symbolic" % (4 if quick else 5),
         "no-op apply": "every layout of the rewrite harness with no modifications; uninitialised tail variant",
